@@ -29,6 +29,10 @@ func main() {
 		os.Exit(cmdCheck(os.Args[2:]))
 	case "list":
 		cmdList(os.Args[2:])
+	case "replay":
+		os.Exit(cmdReplay(os.Args[2:]))
+	case "tmpl":
+		os.Exit(cmdTmpl(os.Args[2:]))
 	case "selftest":
 		os.Exit(cmdSelftest(os.Args[2:]))
 	default:
